@@ -47,7 +47,9 @@ type target struct {
 // a call such as databaseObj.GetAlertHistoryByAlertID(...) whose arguments are NOT translated: its first result becomes
 // the parameter Bind of the generated function (for every value it may return), its error result is nil
 type opaqueSpec struct {
-	Bind string `json:"bind"`
+	Bind   string      `json:"bind"`   // name of the Go variable the result is bound to = name of the parameter(s)
+	Kind   string      `json:"kind"`   // "slice" (default; declared under slices), "struct" (fields below), "bool", or an integer type
+	Fields []fieldSpec `json:"fields"` // kind struct: the integer/bool fields that are read
 }
 
 // a slice of structs of which only the listed integer fields are read: list Z (one field) or a list of tuples
